@@ -245,6 +245,7 @@ func init() {
 		// names of every kind in the with list: named loops (table-valued), subroutines, global patterns
 		cfg.NamedLoops = true
 		cs = append(cs, extremeCases(st, "x")...)
+		cs = append(cs, declOrderCases(r, st, sizes(tier, 300, 4000))...)
 		return append(cs, withNameCases(r, st, sizes(tier, 400, 8000))...)
 	}
 	propGens["C09"] = func(r *rand.Rand, tier string, st *Stats) []Case {
@@ -331,6 +332,59 @@ func withNameCases(r *rand.Rand, st *Stats, n int) []Case {
 		}
 		st.Features["with-name-template"]++
 		out = append(out, Case{ID: fmt.Sprintf("w%d", i), Op: "run", Fields: []string{hx(src), hx(text)}, Meta: map[string]string{}})
+	}
+	return out
+}
+
+// declOrderCases: multi-command sources in which the ORDER of declarations and uses matters for what a with item is —
+// a transform declared after the replace that names it (the name is then a capture, or nothing), declared again
+// between two replaces (each replace runs the function in force where it stands), a transform sharing the name of a
+// capture / a global pattern / a named loop declared before or after it.
+func declOrderCases(r *rand.Rand, st *Stats, n int) []Case {
+	tf := func(name, open, close string) string {
+		return "set " + name + " to transform\n  return " + quote(open) + " + match + " + quote(close) + "\nend\n"
+	}
+	tfn := func(name, tag string) string {
+		return "set " + name + " to transform\n  return " + quote(tag) + " + matchNumber\nend\n"
+	}
+	bodies := []struct{ body, capt string }{
+		{"(at least 1 digit) = NAME", "NAME"},
+		{"at least 1 letter", ""},
+		{"digit", ""},
+		{"maybe ('-' = NAME) at least 1 digit", "NAME"},
+		{"(letter = NAME) or digit", "NAME"},
+		{"at least 1 (digit = d) named NAME", "NAME"},
+	}
+	texts := []string{"a12 b7", "4 2", "ab cd", "-5 6 x", "", "a1b22c333", "77"}
+	names := []string{"tag", "wrap", "f", "fmt"}
+	out := []Case{}
+	for i := 0; i < n; i++ {
+		nm := names[r.Intn(len(names))]
+		b := bodies[r.Intn(len(bodies))]
+		body := strings.ReplaceAll(b.body, "NAME", nm)
+		rep := "replace all " + body + " with " + quote("<") + " " + nm + " " + quote(">") + "\n"
+		other := "replace all " + strings.ReplaceAll(bodies[r.Intn(3)+0].body, "NAME", "other") + " with " + nm + " " + quote(";") + "\n"
+		var src string
+		shape := r.Intn(7)
+		switch shape {
+		case 0: // use, then declaration
+			src = rep + tf(nm, "[", "]")
+		case 1: // use, declaration, use
+			src = rep + tfn(nm, "T") + rep
+		case 2: // declaration, use, redeclaration, use
+			src = tf(nm, "(", ")") + rep + tf(nm, "{", "}") + rep
+		case 3: // declaration, use, redeclaration (nothing after it)
+			src = tf(nm, "(", ")") + other + tfn(nm, "#")
+		case 4: // two declarations in a row, then the use
+			src = tf(nm, "(", ")") + tf(nm, "{", "}") + other
+		case 5: // find first, then declaration, then replace
+			src = "find all " + body + "\n" + tf(nm, "[", "]") + rep
+		default: // a transform and a global pattern of one name, pattern declared after the transform
+			src = tf(nm, "(", ")") + other + "set " + nm + " to pattern 'a'\n" + other
+		}
+		st.Features[fmt.Sprintf("decl-order-shape-%d", shape)]++
+		text := texts[r.Intn(len(texts))]
+		out = append(out, Case{ID: fmt.Sprintf("do%d", i), Op: "run", Fields: []string{hx(src), hx(text)}, Meta: map[string]string{}})
 	}
 	return out
 }
